@@ -626,6 +626,38 @@ Section Cells.
     | _, _ => False
     end.
 
+  (* PARAMETER LOCALITY: two encoders agree on column j's parameter block.  For the per-column
+     parameter tensors ([C, ...] tensors, ParameterList / ModuleList entries) the block is entry j;
+     for EmbeddingEncoder's shared table it is the padding row and the rows the column's
+     categories address, offset(j) + 1 .. offset(j) + ncat(j). *)
+  Definition enc_agree_at (stats : list (colstats S)) (j : nat) (e e' : encoder S) : Prop :=
+    match e, e' with
+    | ELinear _ w b, ELinear _ w' b' => nth j w [] = nth j w' [] /\ nth j b [] = nth j b' []
+    | EStack _, EStack _ => True
+    | EExcel _ w1 b1 w2 b2, EExcel _ w1' b1' w2' b2' =>
+        nth j w1 [] = nth j w1' [] /\ nth j b1 [] = nth j b1' [] /\ nth j w2 [] = nth j w2' [] /\ nth j b2 [] = nth j b2' []
+    | EPeriodic _ li lo, EPeriodic _ li' lo' => nth j li [] = nth j li' [] /\ nth j lo [] = nth j lo' []
+    | EBucket _ w b, EBucket _ w' b' => nth j w [] = nth j w' [] /\ nth j b [] = nth j b' []
+    | EEmbedding _ t, EEmbedding _ t' =>
+        nth_error t 0 = nth_error t' 0 /\
+        forall x, (0 <= x < Z.of_nat (cs_ncat (nth j stats (dstats S))))%Z ->
+                  nth_error t (Z.to_nat (emb_index x (nth j (emb_offset S stats) 0)))
+                  = nth_error t' (Z.to_nat (emb_index x (nth j (emb_offset S stats) 0)))
+    | EBags _ m ts, EBags _ m' ts' => m = m' /\ nth j ts [] = nth j ts' []
+    | ELinEmb _ ws b, ELinEmb _ ws' b' => nth j ws [] = nth j ws' [] /\ nth j b [] = nth j b' []
+    | ETimestamp _ h pm w b, ETimestamp _ h' pm' w' b' =>
+        h = h' /\ pm = pm' /\ nth j w [] = nth j w' [] /\ nth j b [] = nth j b' []
+    | _, _ => False
+    end.
+
+  (* the cell (after na_forward) addresses the column's own block: a categorical index is -1 or a
+     category of the column *)
+  Definition cell_in_block (stats : list (colstats S)) (j : nat) (v : cellv) : Prop :=
+    match v with
+    | CIdx z => (-1 <= z < Z.of_nat (cs_ncat (nth j stats (dstats S))))%Z
+    | _ => True
+    end.
+
   (* the configuration with the NA strategy removed *)
   Definition set_na_none (c : config S) : config S :=
     {| cf_enc := cf_enc S c; cf_stats := cf_stats S c; cf_channels := cf_channels S c; cf_na := None;
@@ -1026,3 +1058,71 @@ Definition check_num (c : config QS) (x : input QS) (obs : list (mat Q)) : bool 
   | Some o => list_all2 (list_all2 (list_all2 x_close)) o obs
   | None => false
   end.
+
+(* --------------------------------------------------------------------------
+   C13, parameter locality on the generated cases: every parameter block except column j's is
+   changed (one added to every entry); column j of the output must not move.  The implementation
+   is measured by gradients: the parameters that out[:, j] depends on, for different j, are disjoint. *)
+Definition bump_rows (keep : nat -> bool) (m : mat Q) : mat Q :=
+  mapi (fun r row => if keep r then row else map (fun q => Qred (q + 1)) row) m.
+Definition bump_mats (j : nat) (ms : list (mat Q)) : list (mat Q) :=
+  mapi (fun c m => if c =? j then m else map (map (fun q => Qred (q + 1))) m) ms.
+Definition reblock (stats : list (colstats QS)) (j : nat) (e : encoder QS) : encoder QS :=
+  let kj := fun r => r =? j in
+  match e with
+  | ELinear _ w b => ELinear QS (bump_rows kj w) (bump_rows kj b)
+  | EStack _ => EStack QS
+  | EExcel _ w1 b1 w2 b2 => EExcel QS (bump_rows kj w1) (bump_rows kj b1) (bump_rows kj w2) (bump_rows kj b2)
+  | EPeriodic _ li lo => EPeriodic QS (bump_rows kj li) (bump_mats j lo)
+  | EBucket _ w b => EBucket QS (bump_mats j w) (bump_rows kj b)
+  | EEmbedding _ t =>
+      let off := nth j (emb_offset QS stats) 0 in
+      let n := cs_ncat (nth j stats (dstats QS)) in
+      EEmbedding QS (bump_rows (fun r => (r =? 0) || ((off + 1 <=? r) && (r <=? off + n))) t)
+  | EBags _ m ts => EBags QS m (bump_mats j ts)
+  | ELinEmb _ ws b => ELinEmb QS (bump_mats j ws) (bump_rows kj b)
+  | ETimestamp _ h pm w b =>
+      ETimestamp QS h pm (mapi (fun c wc => if c =? j then wc else bump_mats (List.length wc) wc) w) (bump_rows kj b)
+  end.
+Definition col_of (j : nat) (o : list (mat (X Q))) : list (option (list (X Q))) := map (fun row => nth_error row j) o.
+Definition check_param_local (c : config QS) (x : input QS) (observed_disjoint : bool) : bool :=
+  match pre_post QS c x with
+  | None => true
+  | Some o =>
+      Bool.eqb observed_disjoint
+        (forallb (fun j =>
+           match pre_post QS (Build_config QS (reblock (cf_stats QS c) j (cf_enc QS c)) (cf_stats QS c)
+                                          (cf_channels QS c) (cf_na QS c) (cf_post QS c)) x with
+           | Some o' => list_eqb (opt_eqb (list_eqb xq_eqb)) (col_of j o) (col_of j o')
+           | None => false
+           end) (seq 0 (List.length (cf_stats QS c))))
+  end.
+
+(* --------------------------------------------------------------------------
+   C12, column association.  StypeWiseFeatureEncoder.forward: x = torch.cat(xs, dim=1) of the
+   per-stype outputs (all with b rows): row r of the result is the concatenation of the parts'
+   rows r.  Column k of part p sits at position width(part 0) + ... + width(part p-1) + k. *)
+Definition hcat {A} (b : nat) (xs : list (mat A)) : option (mat A) :=
+  if forallb (fun x => List.length x =? b) xs
+  then Some (map (fun r => concat (map (fun x => nth r x []) xs)) (seq 0 b))
+  else None.                                           (* sizes of tensors must match except in dimension 1 *)
+Definition col_offset (widths : list nat) (p : nat) : nat := sum (firstn p widths).
+(* position of column k of stype s in the output, from the canonical stype order and the per-stype
+   column counts of the frame *)
+Fixpoint stype_index (s : stype) (l : list stype) : option nat :=
+  match l with
+  | [] => None
+  | x :: r => if stype_eqb s x then Some 0 else option_map Datatypes.S (stype_index s r)
+  end.
+Definition col_position (fd : list (stype * nat)) (s : stype) (k : nat) : option nat :=
+  let present := tf_stypes fd in
+  match stype_index s present with
+  | Some p => Some (col_offset (map (fun t => match assoc_stype fd t with Some n => n | None => 0 end) present) p + k)
+  | None => None
+  end.
+(* the output column that moved when input column k of stype s was perturbed is where the model puts it *)
+Definition check_position (fd : list (stype * nat)) (moved : list (stype * nat * nat)) : bool :=
+  forallb (fun m => match col_position fd (fst (fst m)) (snd (fst m)) with
+                    | Some q => q =? snd m
+                    | None => false
+                    end) moved.
